@@ -143,11 +143,11 @@ NUT80_TERMS = (
     ((2, 0, 0, -2, 0), 48.0, 0.0, 1.0, 0.0),
     ((-2, 0, 2, 0, 1), 46.0, 0.0, -24.0, 0.0),
 )
-# Hard bound of what the 20-term truncation omits for |T| <= 0.3 century: sum over the other 86 terms of
-# |A| + 0.3 |A'| and |B| + 0.3 |B'| (computed once from the published table): 0.0492" and 0.0151".
+# Hard bound of what the 20-term truncation omits for |T| <= 0.6 century (1940..2060): sum over the other 86 terms
+# of |A| + 0.6 |A'| and |B| + 0.6 |B'| (computed once from the published table): 0.04921" and 0.01510".
 NUT80_TRUNC_DPSI = 0.0493 * ARCSEC
 NUT80_TRUNC_DEPS = 0.0152 * ARCSEC
-# what a series cut after the first 4 terms omits w.r.t. the full series (0.4851", 0.1130")
+# what a series cut after the first 4 terms omits w.r.t. the full series, |T| <= 0.6 (0.48527", 0.11297")
 NUT80_TRUNC4_DPSI = 0.486 * ARCSEC
 
 
